@@ -589,6 +589,7 @@ class Expander:
             if isinstance(c, ast.Call) and isinstance(c.func, ast.Attribute):
                 self.stores.append(Store("mcall", self._tr(c.func.value), T("const", c.func.attr),
                                          self._tr(c), c, st, tuple(self.guard_stack)))
+                self._inline_setter(c, st)
                 # a local list that is filled with append/extend keeps what was put into it:  acc(list, guard?, element)
                 if c.func.attr in ("append", "extend") and isinstance(c.func.value, ast.Name) and c.func.value.id in env \
                         and len(c.args) == 1 and env[c.func.value.id].op in ("list", "listacc", "phi", "carried", "call", "ifexp"):
@@ -734,6 +735,69 @@ class Expander:
             else:
                 break
         return args, kw
+
+    def _inline_setter(self, c, st):
+        """`self.m(a, b)` where m is a method of the same class that ONLY assigns attributes of the object (`self.x = a`,
+        `self.base.y = b`, `self.base.n -= a`) is those assignments: moving a group of assignments into such a method, or back, is the
+        same program.  The call itself stays recorded as well."""
+        if not (isinstance(c.func.value, ast.Name) and c.func.value.id == "self" and self.fi.cls):
+            return
+        if any(isinstance(a_, ast.Starred) for a_ in c.args) or any(k_.arg is None for k_ in c.keywords) or getattr(self, "_set_depth", 0) > 1:
+            return
+        g = None
+        for b_ in self.repo.mro(self.fi.cls):
+            if c.func.attr in b_.methods:
+                g = b_.methods[c.func.attr]
+                break
+        if g is None or g.node is self.fi.node or g.node.decorator_list:
+            return
+        body = [x for x in g.node.body if not (isinstance(x, ast.Expr) and isinstance(x.value, ast.Constant)) and not isinstance(x, ast.Pass)]
+
+        def self_rooted(t):
+            while isinstance(t, ast.Attribute):
+                t = t.value
+            return isinstance(t, ast.Name) and t.id == "self"
+        if not body or not all(isinstance(x, (ast.Assign, ast.AugAssign, ast.AnnAssign)) and
+                               all(isinstance(t, ast.Attribute) and self_rooted(t) for t in (x.targets if isinstance(x, ast.Assign) else [x.target]))
+                               and not any(isinstance(y, (ast.Call, ast.Lambda, ast.Yield, ast.Await, ast.NamedExpr)) for y in ast.walk(x.value if x.value is not None else x))
+                               for x in body):
+            return
+        a = g.node.args
+        if a.vararg or a.kwarg or a.posonlyargs:
+            return
+        names = [x.arg for x in a.args][1:]
+        given = {}
+        for i_, v_ in enumerate(c.args):
+            if i_ >= len(names):
+                return
+            given[names[i_]] = self._tr(v_)
+        for k_ in c.keywords:
+            given[k_.arg] = self._tr(k_.value)
+        defaults = dict(zip(names[len(names) - len(a.defaults):], a.defaults)) if a.defaults else {}
+        for k_, d_ in zip(a.kwonlyargs, a.kw_defaults):
+            if d_ is not None:
+                defaults[k_.arg] = d_
+        try:
+            ex2 = Expander(self.repo, g)
+        except Exception:
+            return
+        for n_ in names + [k_.arg for k_ in a.kwonlyargs]:
+            if n_ not in given:
+                if n_ not in defaults:
+                    return
+                given[n_] = ex2._tr(defaults[n_])
+
+        def sub(t):
+            if t.op == "param" and t.name in given:
+                return given[t.name]
+            if not t.args and not t.kw:
+                return t
+            return T(t.op, t.name, [sub(x) for x in t.args], {k: sub(v) for k, v in t.kw.items()}, t.node)
+        for s2 in ex2.stores:
+            if s2.kind != "attr":
+                continue
+            self.stores.append(Store("attr", sub(s2.base), s2.key, sub(s2.value) if s2.value is not None else None, s2.node, st,
+                                     tuple(self.guard_stack)))
 
     def _inline_nested(self, fname, args, kw):
         """A call of a LOCAL helper that only computes a value (one return -- early returns merged --, no store into anything, no
